@@ -311,6 +311,7 @@ func uidAndFields(m *search.DocumentMatch) (string, uint64) {
 }
 
 func (b *build) answer(q qSpec, withScores bool) (*answer, error) {
+	heartbeat.Add(1) // harness-side work in progress: not a window that fails to quiesce
 	a := &answer{}
 	// (1)+(2) match set and stored fields
 	it, err := b.search(bluge.NewAllMatches(q.Make()))
@@ -460,6 +461,7 @@ func memBuild(name string, docs []*DocSpec, per int, cfg bluge.Config, scoreOK b
 		return nil, err
 	}
 	for i := 0; i < len(docs); i += per {
+		heartbeat.Add(1)
 		b := bluge.NewBatch()
 		for j := i; j < i+per && j < len(docs); j++ {
 			b.Insert(docs[j].Bluge())
